@@ -114,10 +114,22 @@ fn lint(src: &str) -> String {
     }
 }
 
+/// `clilint`: the library entry point the command line uses (`rrss::cli::linter::lint`), which
+/// this server calls again and again in ONE process; answer as for `lint`.
+fn cli_lint(src: &str) -> String {
+    match guarded(|| rrss::cli::linter::lint(src)) {
+        Err(()) => "crash".to_string(),
+        Ok(Err(_)) => "parseerr".to_string(),
+        Ok(Ok(result)) => render_diags(&result.diags),
+    }
+}
+
 fn lint_program(program: &Program) -> String {
-    let diags: Vec<String> = standard_linter()
-        .run(program)
-        .diags
+    render_diags(&standard_linter().run(program).diags)
+}
+
+fn render_diags(diags: &[rrss::linter::Diag]) -> String {
+    let diags: Vec<String> = diags
         .iter()
         .map(|d| {
             let mut fields = vec![d.line.to_string(), xhex(&d.issue), d.suggestions.len().to_string()];
@@ -218,6 +230,7 @@ fn respond(line: &str) -> Option<String> {
         ["lint", src] => Some(lint(&unx(src)?)),
         ["fold", src] => fold(&unx(src)?),
         ["foldstmt", src] => fold_statement(&unx(src)?),
+        ["clilint", src] => Some(cli_lint(&unx(src)?)),
         ["walk", src, f] => walk_request(&unx(src)?, optional_index(f)?),
         // (harness only) `run` with injected faults of another io::ErrorKind
         ["runk", kind, src, stdin, w, r, _steps] => {
